@@ -226,17 +226,21 @@ def sortU (ms : List Plug) (a b : UVal) : Int :=
 /-- `lyplg_type_sort_union` as the C code runs it when some member does not store its own type as `realtype` (leafref): the loop
     `LY_ARRAY_FOR(types, u) { if (types[u] == val1->…realtype) {rc = 1; break;} else if (types[u] == val2->…realtype) {rc = -1; break;} }`
     never meets the value of such a member; when it meets neither value `rc` stays 0 (`assert(rc != 0)` is compiled out with NDEBUG).
-    For member lists without leafref this is `sortU` (`sortUV_eq_sortU`). -/
-def sortUV (ms : List Plug) (a b : UVal) : Int :=
+    For member lists without leafref — and for all member lists with the repaired loop — this is `sortU` (`sortUV_eq_sortU`). -/
+def sortUVWith (lrefFound : Bool) (ms : List Plug) (a b : UVal) : Int :=
   if a.idx == b.idx then
     match ms[a.idx]? with
     | some m => m.sort a.val b.val
     | none => 0
   else
-    let va := (ms[a.idx]?.map Plug.ownRealtype).getD true
-    let vb := (ms[b.idx]?.map Plug.ownRealtype).getD true
+    let va := lrefFound || (ms[a.idx]?.map Plug.ownRealtype).getD true
+    let vb := lrefFound || (ms[b.idx]?.map Plug.ownRealtype).getD true
     if a.idx < b.idx then (if va then 1 else if vb then -1 else 0)
     else (if vb then -1 else if va then 1 else 0)
+
+/-- the sort callback of the tree the model was generated from (`lrefFound` = the repaired loop, `fixes/F424.diff`, which looks a leafref
+    member up by its target's type) -/
+def sortUV := sortUVWith Generated.unionSortLeafrefTarget
 
 /-- `lyb_union_print`: the member is looked up again (`union_find_type` on the original text — the same member), then
     4-byte little-endian index + the member's LYB value -/
